@@ -707,7 +707,7 @@ class BaseProject(object, metaclass=ABCMeta):
         for step_time in sorted(self.absence_time_list, reverse=True):
             if step_time < len(self.cost_list):
                 self.cost_list.pop(step_time)
-        self.time = self.time - len(self.absence_time_list)
+                self.time = self.time - 1
         self.absence_time_list = []
 
     def insert_absence_time_list(self, absence_time_list):
@@ -729,9 +729,9 @@ class BaseProject(object, metaclass=ABCMeta):
         self.organization.insert_absence_time_list(new_absence_time_list)
 
         for step_time in sorted(new_absence_time_list):
-            self.cost_list.insert(step_time, 0.0)
-
-        self.time = self.time + len(new_absence_time_list)
+            if step_time < len(self.cost_list):
+                self.cost_list.insert(step_time, 0.0)
+                self.time = self.time + 1
         self.absence_time_list.extend(new_absence_time_list)
 
     def set_last_datetime(
